@@ -266,7 +266,9 @@ func (sc v07Scenario) run(x *vexp.X, dir string) vexp.Result {
 	if out.Pruned {
 		return vexp.Result{Skip: true}
 	}
-	if out.Deadlock {
+	if out.PanicClass != "" {
+		fail(out.PanicClass, "the producer panicked: %s", out.PanicText)
+	} else if out.Deadlock {
 		fail("deadlock", "deadlock: %v; schedule %s", out.Blocked, s.TraceString())
 	} else if out.Horizon {
 		fail("runaway", "no termination within %d steps; schedule %s", out.Steps, s.TraceString())
